@@ -119,6 +119,17 @@ func VerifC05Sequence() {
 		if npre == 3 {
 			verifCover("C05.pre3")
 		}
+		if npre > 0 && verifCase("from-wire", 0, 1) == 1 {
+			// the same list, but obtained from Unmarshal: values alias the wire buffer
+			raw, err := h.Marshal()
+			verifAssert("C05.wire-setup-marshal", err == nil)
+			var g Header
+			_, err = g.Unmarshal(raw)
+			verifAssert("C05.wire-setup-unmarshal", err == nil)
+			h = g
+			verifC05Agrees("C05.wire-setup", &h, m)
+			verifCover("C05.from-wire")
+		}
 	}
 	nops := verifCase("nops", 1, maxops)
 	for op := 0; op < nops; op++ {
